@@ -87,6 +87,9 @@ type Boolean interface {
 func CoerceBool(v Value) bool {
 	switch vc := v.(type) {
 	case SafeValue:
+		if nilReceiver(vc, "Value") {
+			return false
+		}
 		return CoerceBool(vc.Value())
 	case bool:
 		return vc
@@ -188,6 +191,9 @@ func stringToFloat(s string) float64 {
 func CoerceNumber(v Value) float64 {
 	switch vc := v.(type) {
 	case SafeValue:
+		if nilReceiver(vc, "Value") {
+			return 0
+		}
 		return CoerceNumber(vc.Value())
 	case Number:
 		if nilReceiver(vc, "Number") {
@@ -261,6 +267,9 @@ func formatFloat(f float64, bitSize int) string {
 func CoerceString(v Value) string {
 	switch vc := v.(type) {
 	case SafeValue:
+		if nilReceiver(vc, "Value") {
+			return ""
+		}
 		return CoerceString(vc.Value())
 	case string:
 		return vc
